@@ -26,6 +26,7 @@ def run_real_program(spec, ops):
     ref = frame.ref_of_spec(spec)
     outs, findings = [], []
     cur = tf
+    shared = {}
     for k, op in enumerate(ops):
         if cur is None:
             outs.append(None)
@@ -49,14 +50,16 @@ def run_real_program(spec, ops):
             outs.append(out)
             continue
         ix = op['ix']
+        pyix = ragged.to_py_index(ix, shared)        # the same `share` id = the same tensor object as before
         try:
-            new = frame.real_select(cur, ix)
+            new = cur[pyix]
             out = {'ok': frame.frame_repr(new)}
         except Exception:
             new, out = None, 'raises'
         outs.append(out)
         if frame.frame_repr(cur) != before:
             findings.append((k, 'selection modified its source frame', None, None))
+        idx_bad = not ragged.index_intact(pyix, ix)
         if ref is not None:
             try:
                 eref = frame.ref_select(ref, ix)
@@ -79,8 +82,20 @@ def run_real_program(spec, ops):
                 if bad is None:
                     bad = columns_agree(spec, cur, new, ix, eref)
                 if bad is not None:
-                    findings.append((k, bad, {'rows': eref['n'], 'y': eref['y']}, out))
+                    findings.append((k, bad, {'rows': eref['n'], 'y': eref['y'][:50] if eref['y'] else eref['y']}, None))
                 ref = eref
+        if op.get('twice') and new is not None:
+            # history on one object: the same selection once more on the same frame (same index object)
+            try:
+                again = frame.frame_repr(cur[pyix])
+            except Exception:
+                again = 'raises'
+            if again != out['ok']:
+                findings.append((k, 'the same selection issued twice on one frame gives two different results', None, None))
+            elif frame.frame_repr(new) != out['ok']:
+                findings.append((k, 'a later selection on the same frame changed an earlier result', None, None))
+        if idx_bad:
+            findings.append((k, "selection modified the caller's index tensor", None, None))
         cur = new
     if frame.frame_repr(tf) != frame.frame_repr(frame.build_real(spec)):
         findings.append((len(ops) - 1, 'the program modified the original frame', None, None))
@@ -93,7 +108,14 @@ class C07(frame.Findings, core.Check):
     driver = 'drv_c07'
     quick_cases = 4000
     thorough_cases = 30000
-    rule = ('random TensorFrames (0-6 rows; 0-5 of the 9 stypes in random dict order: dense 2-D float/int, dense 3-D, '
+    rule = ('hardening families: special values (+-inf, -0.0, 2^24+2, -1.0, integers 2^24+1 / 2^40) and float64 features; dict '
+            'features in either key order; index tensors int64 / int32 / non-contiguous views; the SAME index tensor object '
+            'in several steps of a chain (caller\'s tensor compared afterwards); scale (60 / 120 / 300 frames at stress level '
+            '0 / 1 / 2): rows from the ladder (<= 259 / 4 099) with all-empty ragged rows, long cells / wide embeddings, long '
+            'structured index lists (runs, reversed, strides, constants, sorted-with-duplicates, permutations, interior '
+            'disturbed, negative spellings) and masks; heavy frames (5 / 12 / 24) in which one row gather moves >= 16 385 / '
+            '32 769 values of a ragged feature; base: '
+            'random TensorFrames (0-6 rows; 0-5 of the 9 stypes in random dict order: dense 2-D float/int, dense 3-D, '
             'MultiNestedTensor int/float, MultiEmbeddingTensor, dict-valued text_tokenized; 1-3 columns each; with/without y; '
             'explicit num_rows; feature-less frames) x programs of 1-5 steps: row selections from the IndexSelectType '
             'grammar (int/slice/list/range/index tensor/mask, ~10% illegal) and get_col_feat lookups; non-trivial = at '
@@ -108,24 +130,79 @@ class C07(frame.Findings, core.Check):
         'features: TensorFrame({}, {}, num_rows=5)[[7]] has length 1 (modelled by dummyLen, excluded from the oracle)',
     )
 
+    N_SCALE = {0: 60, 1: 120, 2: 300}
+    N_HEAVY = {0: 5, 1: 12, 2: 24}
+    N_HUGE = {0: 0, 1: 0, 2: 3}      # 16 385 .. 65 539 rows: judged by the direct oracle only
+
+    def gen_program(self, rng, spec, kmax=5, big=False, first_gathers=False):
+        names = frame.all_names(spec)
+        ops, rows, pool = [], spec['R'], []
+        weights = frame.row_weights(spec) if big else None      # values a row gather moves, per current row
+        for step in range(rng.randint(1, kmax)):
+            u = rng.random()
+            if u < .2 and not (first_gathers and step == 0):
+                nm = rng.choice(names) if names and rng.random() < .9 else 'no_such_col'
+                ops.append({'op': 'col', 'name': nm})
+                continue
+            allow_bad = rng.random() < .8
+            if big and rows > 12:
+                for attempt in range(200):
+                    ix = ragged.gen_big_index(rng, rows, self.level, allow_bad and not first_gathers,
+                                              max_len=rows + 2 if spec.get('scaled') == 'heavy' else None)
+                    try:
+                        cost = sum(ragged.py_select(weights, ix))
+                    except (IndexError, ValueError):
+                        cost = 0
+                    if cost > ragged.BUDGET[self.level]:
+                        continue            # repeating heavy rows would multiply the values beyond the model driver
+                    if not (first_gathers and step == 0) or (ragged.py_len(ix, rows) or 0) * 2 >= rows and (
+                            ix['t'] in ('list', 'mask') or (ix['t'] == 'slice' and (ix['s'] or 1) > 1)):
+                        break
+                else:
+                    ix = {'t': 'list', 'is': list(range(rows - 1, -1, -1)), 'as': 'list', 'pat': 'reversed'}
+            else:
+                ix = frame.gen_index(rng, rows, allow_bad=allow_bad)
+            if ix['t'] == 'mask' or ix.get('as') == 'tensor':
+                # aliasing family: the same index tensor object in a later step of the chain
+                cand = [p for p in pool if ragged._valid_for(p, rows) and
+                        (weights is None or sum(ragged.py_select(weights, p)) <= ragged.BUDGET[self.level])]
+                if cand and rng.random() < .5:
+                    ix = dict(rng.choice(cand))
+                elif rng.random() < .6:
+                    if ix['t'] == 'list' and rows >= 1 and not big and rng.random() < .5:
+                        m = max(1, min(rows, len(ix['is'])))
+                        ix['is'] = [rng.randint(-m, m - 1) for _ in ix['is']] or [-1]
+                    ix['share'] = len(pool)
+                    pool.append(dict(ix))
+            ops.append({'op': 'sel', 'ix': ix})
+            if rng.random() < .1:
+                ops[-1]['twice'] = True
+            k = ragged.py_len(ix, rows)
+            if k is None:
+                break
+            rows = k
+            if weights is not None:
+                weights = ragged.py_select(weights, ix)
+        return ops
+
     def generate(self, rng, n, tier):
-        for _ in range(n):
-            spec = frame.gen_frame(rng)
-            names = frame.all_names(spec)
-            ops, rows = [], spec['R']
-            for _ in range(rng.randint(1, 5)):
-                u = rng.random()
-                if u < .2:
-                    nm = rng.choice(names) if names and rng.random() < .9 else 'no_such_col'
-                    ops.append({'op': 'col', 'name': nm})
-                    continue
-                ix = frame.gen_index(rng, rows, allow_bad=rng.random() < .8)
-                ops.append({'op': 'sel', 'ix': ix})
-                k = ragged.py_len(ix, rows)
-                if k is None:
-                    break
-                rows = k
-            yield {'frame': spec, 'ops': ops}
+        lv = self.level
+        n_heavy, n_scale = min(self.N_HEAVY[lv], n // 4), min(self.N_SCALE[lv], n // 2)
+        for i in range(n):
+            if i < self.N_HUGE[lv]:
+                from harness import stress
+                spec = frame.gen_frame_scaled(rng, lv, 'rows', R=rng.choice(stress.LADDER_BIG) + rng.choice([0, 1, 2]),
+                                              pool='full')
+                yield {'frame': spec, 'ops': self.gen_program(rng, spec, 2, big=True), 'oracle_only': True}
+            elif i < n_heavy:
+                spec = frame.gen_frame_scaled(rng, lv, 'heavy', pool='full')
+                yield {'frame': spec, 'ops': self.gen_program(rng, spec, 2, big=True, first_gathers=True)}
+            elif i < n_heavy + n_scale:
+                spec = frame.gen_frame_scaled(rng, lv, rng.choice(['rows', 'rows', 'rows', 'longcells', 'cols']), pool='full')
+                yield {'frame': spec, 'ops': self.gen_program(rng, spec, 3, big=True)}
+            else:
+                spec = frame.gen_frame(rng, pool='full')
+                yield {'frame': spec, 'ops': self.gen_program(rng, spec)}
 
     def real(self, case):
         outs, findings = run_real_program(case['frame'], case['ops'])
@@ -133,9 +210,13 @@ class C07(frame.Findings, core.Check):
         return outs
 
     def model_requests(self, case):
+        if case.get('oracle_only'):
+            return []
         return [{'cmd': 'prog', 'frame': frame.model_frame(case['frame']), 'ops': frame.model_ops(case['ops'])}]
 
     def model_outcome(self, case, replies):
+        if case.get('oracle_only'):
+            return core.SKIP_MODEL
         return replies[0]
 
     def oracle(self, case, real_outcome):
@@ -143,7 +224,9 @@ class C07(frame.Findings, core.Check):
         if findings:
             k, what, exp, got = findings[0]
             op = case['ops'][min(k, len(case['ops']) - 1)]
-            return core.Violation(f"frame/{op['op']}/{what}", f'step {k} ({op}): {what}', case, exp, got)
+            import re
+            return core.Violation(f"frame/{op['op']}/" + re.sub(r'\d+', 'N', what), f'step {k} ({str(op)[:400]}): {what}',
+                                  case, exp, got)
         return None
 
     def nontrivial_key(self, case, outs):
@@ -154,21 +237,58 @@ class C07(frame.Findings, core.Check):
 
     def classify(self, case, outs):
         spec = case['frame']
-        labs = [f"rows:{spec['R']}", f"stypes:{len(spec['feats'])}", f"y:{'none' if spec['y'] is None else spec['y']['payload']}",
+        R = spec['R']
+        rows = str(R) if R <= 7 else '8..16' if R <= 16 else '17..256' if R <= 256 else '257..1024' if R <= 1024 else '1025+'
+        labs = [f"rows:{rows}", f"stypes:{len(spec['feats'])}", f"y:{'none' if spec['y'] is None else spec['y']['payload']}",
                 f"explicit_num_rows:{spec['num_rows'] is not None}", f"steps:{len(case['ops'])}"]
         labs += [f"kind:{ft['kind']}" for ft in spec['feats']]
+        if any(ft['payload'] == 'float64' for ft in spec['feats']):
+            labs.append('dtype:float64-feature')
+        if spec['num_rows'] is not None and spec['feats']:
+            labs.append('explicit-num_rows-with-features')
+        if any(ft['kind'] == 'dict' and ft['keys'][0] != 'input_ids' for ft in spec['feats']):
+            labs.append('dict:other-key-order')
         if not spec['feats']:
             labs.append('feature-less')
+        if spec.get('scaled'):
+            labs.append(f"scale:{spec['scaled']}")
+        if R >= 257:
+            labs.append('scale:rows>=257' if R < 1025 else 'scale:rows>=1025' if R < 16385 else 'scale:rows>=16385(oracle-only)')
+        if any(ft['C'] >= 257 for ft in spec['feats']):
+            labs.append('scale:cols>=257')
+        seen = {}
+        if any(op.get('twice') for op in case['ops']):
+            labs.append('history:selection-issued-twice')
         for op, o in zip(case['ops'], outs):
             if o is None:
                 continue
             res = 'raises' if o == 'raises' else 'ok'
             if op['op'] == 'sel':
-                labs.append(f"sel:{op['ix']['t']}/{op['ix'].get('as', '')}:{res}")
+                ix = op['ix']
+                labs.append(f"sel:{ix['t']}/{ix.get('as', '')}:{res}")
                 if res == 'ok' and o['ok'].get('len') == 0:
                     labs.append('selects-zero-rows')
+                if ix.get('dt'):
+                    labs.append('dtype:index-int32')
+                if ix.get('view'):
+                    labs.append('alias:index-is-a-view')
+                if ix.get('pat'):
+                    labs.append(f"index-pattern:{'disturbed' if 'disturbed' in ix['pat'] else 'regular'}")
+                n = len(ix.get('is', ix.get('bs', [])))
+                if n >= 64:
+                    labs.append('scale:index-length>=64' if n < 1025 else 'scale:index-length>=1025')
+                if 'share' in ix:
+                    seen[ix['share']] = seen.get(ix['share'], 0) + 1
+                if res == 'ok':
+                    nv = max([len(m['values']) for _, f in o['ok'].get('feats', []) for m in
+                              ([f] if f['k'] == 'mnt' else [mm for _, mm in f['d']] if f['k'] == 'dict' else [])
+                              if m['values'] != 'bad-ndim'] or [0])
+                    if nv >= 16385:
+                        labs.append('scale:gathered-values>=32769' if nv >= 32769 else 'scale:gathered-values>=16385')
             else:
                 labs.append(f'col:{res}')
+        if any(v >= 2 for v in seen.values()):
+            labs.append('alias:index-reused')
         return labs
 
     def extra_checks(self, rng, tier, report):
@@ -191,8 +311,9 @@ class C07(frame.Findings, core.Check):
                 outs, findings = run_real_program(spec, [op])
                 if findings:
                     k, what, exp, got = findings[0]
+                    import re
                     report['violations'].append(core.Violation(
-                        f'frame/slice-box/{what}', f'slice {a}:{b}:{s} on {n} rows: {what}',
+                        'frame/slice-box/' + re.sub(r'\d+', 'N', what), f'slice {a}:{b}:{s} on {n} rows: {what}',
                         {'frame': spec, 'ops': [op]}, exp, got))
                 reqs.append({'cmd': 'prog', 'frame': mf, 'ops': frame.model_ops([op])})
                 expect.append(outs)
@@ -211,6 +332,11 @@ class C07(frame.Findings, core.Check):
             report['broken'].append(f'slice box: driver unavailable ({e})')
         report['extra']['slice_box'] = {'cases': len(reqs), 'bounds': f'-{B}..{B} and None', 'steps': str(steps),
                                         'sizes': str(list(sizes)), 'exhaustive': True, 'disagreements': bad}
+        report['extra']['observed_outside_generated_domain'] = [
+            'index tensors of dtype uint8 / int8 / int16: PyTorch advanced indexing itself rejects int8 / int16 '
+            '("tensors used as indices must be long, int, byte or bool") and reads uint8 as a (deprecated) mask, so '
+            'x[torch.tensor([2, 0, 1], dtype=torch.uint8)] raises IndexError; only int64 / int32 / bool index tensors '
+            'are generated']
 
 
 CHECK = C07()
